@@ -905,7 +905,13 @@ func (r *rec) ucirepro(corpus []string) {
 		case 2:
 			pre = []string{"setoption name Ponder value true", fmt.Sprintf("setoption name Hash value %d", hash), "position startpos", "go ponder wtime 200 btime 200", "stop", "ucinewgame"}
 		default:
-			pre = []string{"setoption name Hash value 16", "position fen " + fen, "go nodes 4000", "setoption name Hash value 1", "ucinewgame", fmt.Sprintf("setoption name Hash value %d", hash)}
+			// the table at its final size is used, shrunk, cleared and grown back: what the first search left beyond the
+			// shrunk part must not come back
+			if hash == 1 {
+				hash = 16
+				ref[0] = "setoption name Hash value 16"
+			}
+			pre = []string{fmt.Sprintf("setoption name Hash value %d", hash), "position fen " + fen, fmt.Sprintf("go nodes %d", 30000+r.rng.Intn(50000)), "setoption name Hash value 1", "ucinewgame", fmt.Sprintf("setoption name Hash value %d", hash)}
 		}
 		if kind == 2 {
 			// the Ponder option changes what `bestmove` prints: same option on both sides
